@@ -136,6 +136,7 @@ def run(rep):
                "the cached typed module is returned on a path that is not the true edge of is_ty_module_cache_up_to_date")
         # and TyModule::type_check uses only this accessor to read `typed` cache entries
     rep.floor("R3-reuse-behind-predicate", 2, n3)
+    rule_commit_discipline(rep)
 
 
 def _behind_true_edge(f, blk, pred, call_t):
@@ -146,3 +147,45 @@ def _behind_true_edge(f, blk, pred, call_t):
                     same_path = panics.root_local(f, tt["a"][1]) == panics.root_local(f, call_t["a"][1]) if len(call_t.get("a", [])) > 1 else True
                     return f.dominates(true_s, blk) and f.preds()[true_s] == [sbi] and same_path
     return False
+
+
+def _ancestors(root, target):
+    """chain of nodes from root down to target (identity), or None"""
+    stack = [(root, [root])]
+    while stack:
+        n, path = stack.pop()
+        if n is target:
+            return path
+        it = n.values() if isinstance(n, dict) else n if isinstance(n, list) else []
+        for v in it:
+            if isinstance(v, (dict, list)):
+                stack.append((v, path + ([v] if isinstance(v, dict) else [])))
+    return None
+
+
+def rule_commit_discipline(rep):
+    """R5: the compilation thread works on copy-on-write caches; its local changes (among them a parent module's dependency list,
+    which omits a submodule that failed to parse) reach the shared caches only through QueryEngine::commit(). commit() must be
+    reached only when the compilation produced a program: inside the `Ok` arm of the parse_project match and the `Some` arm of the
+    program lookup (findings/F13-probe shows the stale-diagnostics history this prevents)."""
+    SS = "sway-lsp/src/server_state.rs"
+    t = tab.tree(SS)
+    commits = [n for n in tab.walk(t) if n.get("k") == "MethodCall" and n["method"] == "commit" and not n["args"] and ".qe()" in tab.show(n["recv"])]
+    everywhere = [n for rel in ("sway-lsp/src/core/session.rs", "sway-lsp/src/handlers/notification.rs", "sway-lsp/src/handlers/request.rs", "forc-pkg/src/pkg.rs")
+                  for n in tab.walk(tab.tree(rel)) if n.get("k") == "MethodCall" and n["method"] == "commit" and not n["args"] and ".qe()" in tab.show(n["recv"])]
+    rep.ob("R5-commit-only-in-the-compilation-thread", "qe().commit()", len(commits) == 1 and not everywhere, SS, commits[0]["l"] if commits else 0,
+           f"expected exactly one QueryEngine::commit() call, in the compilation thread; found {len(commits)} in server_state.rs and {len(everywhere)} elsewhere")
+    if len(commits) != 1:
+        return
+    path = _ancestors(t, commits[0])
+    arms = []
+    for i_, n in enumerate(path):
+        if n.get("k") == "Match":
+            arm = [a for a in n["arms"] if path[i_ + 1] is a or any(x is path[-1] for x in tab.walk(a["body"]))]
+            if arm:
+                arms.append((tab.show(n.get("expr") or n.get("scrutinee") or {}), tab.show(arm[0]["pat"])))
+    ok_parse = any("parse_project(" in sc and pat.startswith("Ok") for sc, pat in arms)
+    ok_prog = any(pat.startswith("Some") for sc, pat in arms)
+    rep.ob("R5-commit-only-after-a-successful-compilation", "qe().commit()", ok_parse and ok_prog, SS, commits[0]["l"],
+           f"commit() must sit in the Ok arm of `match parse_project(..)` and the Some arm of the program lookup; enclosing arms: {arms}")
+
